@@ -7,5 +7,6 @@ python3 translator/extract.py ${TV_REPO:-/repo} lean/Tv/Generated.lean
 python3 translator/closures.py ${TV_REPO:-/repo} lean/Tv/GenClosures.lean
 python3 translator/aggs.py ${TV_REPO:-/repo} lean/Tv/GenAgg.lean
 python3 translator/maps.py ${TV_REPO:-/repo} lean/Tv/GenMap.lean
+python3 translator/drivers.py ${TV_REPO:-/repo} lean/Tv/GenDrv.lean
 (cd lean && lake build Tv tvmodel)
 (cd harness && cargo build)
